@@ -67,6 +67,18 @@ class PitRun:
         self.shared_param = None
         self.seen_data = []
         self.finals = {}
+        if front == 'v2':
+            # appv2 has no default: an Interest cannot be expressed without a Data validator (nothing may be sent or kept)
+            n0 = len(self.face.out)
+            try:
+                c = self.app.express('/zz/novalidator', None, lifetime=10)
+                if hasattr(c, 'close'):
+                    c.close()
+                self.bg.append('express-without-validator-accepted')
+            except ValueError:
+                pass
+            if len(self.face.out) != n0 or self.npit():
+                self.bg.append('express-without-validator-left-something')
 
     def close(self):
         for c in self.coros.values():
